@@ -213,6 +213,17 @@ def drive(lg: Logger, rng, plan, solver=None, solver_name=""):
             valid = [i for i, m in enumerate(env.action_masks()) if m]
             if not valid:
                 continue
+            # every built-in solver is asked FIRST, in the state as the walk left it (seed C13-e: the driver's own probing below must not
+            # move the environment out of the state the solver is judged in -- e.g. a used-up step budget); the answers are logged after
+            # the probes, which supply the observed reward ranks
+            asked = []
+            for sname, sobj in solver.items():
+                before = lg.raw()
+                gcount = len(lg.counting.games)
+                hid_id = id(env.full_game)
+                ch, exc = call(sobj.next_step, env)
+                same = lg.raw() == before and len(lg.counting.games) == gcount and id(env.full_game) == hid_id
+                asked.append((sname, ch, exc, same))
             rewards = {}
             for a in valid:           # probe through the public API; logged as ordinary events
                 before = lg.raw()
@@ -232,12 +243,7 @@ def drive(lg: Logger, rng, plan, solver=None, solver_name=""):
             else:
                 ranks = [-1] * na
             choice = None
-            for sname, sobj in solver.items():       # every built-in solver is queried at this state
-                before = lg.raw()
-                gcount = len(lg.counting.games)
-                hid_id = id(env.full_game)
-                ch, exc = call(sobj.next_step, env)
-                same = lg.raw() == before and len(lg.counting.games) == gcount and id(env.full_game) == hid_id
+            for sname, ch, exc, same in asked:
                 ev = lg.event("solve", ch if ch is not None else 0, None, exc, undo_bits=1 if same else 0, ranks=ranks)
                 ev["solver"] = sname
                 events.append(ev)
@@ -426,6 +432,10 @@ def main():
                 scale = None
                 grid = 2.0 ** 16 / D.pow2_at_least(4 * mx)
                 tol, tol2 = 1, n + 2
+                if family in ("k_budget_generator", "covg_fn_generator"):
+                    # integer-valued families are exactly representable: full refinement against the specification (bounds recomputed by
+                    # TLC from the knowledge alone), not only the clauses that can be judged on a grid (seed C09-e: stale SAM bounds)
+                    mode, scale, grid, tol, tol2 = "exact", 1, None, 0, 0
             lg = Logger(n, mode, scale, grid, gapname, env, counting, lin)
             solver = {s: SOLVERS[s](ModelInstance(seed=a.seed + tid)) for s in solvers} if solver_name else None
             plan = make_plan(rng, n, a.kind, nact)
